@@ -261,6 +261,20 @@ class Encoder:
                 out.extend([e["args"][0]] * e["args"][1][1])
             elif sh == "push" and c.startswith("std::vec::Vec"):
                 out.append(e["args"][1])
+            elif sh == "extend" and len(e["args"]) == 2 and ("Extend" in c or c.startswith("std::vec::Vec")):
+                # buf.extend(x.to_le_bytes().iter().take(k))
+                src = strip_refs(e["args"][1])
+                k_ = None
+                for x in walk(src):
+                    if x[0] == "call" and x[1].endswith("Iterator::take") and len(x[2]) == 2 and x[2][1][0] == "const":
+                        k_ = x[2][1][1]
+                arrs = [x for x in walk(src) if x[0] == "call" and re.search(r"<impl (u16|u32|u64|usize)>::to_(be|le)_bytes$", x[1])]
+                if arrs and not any(x[0] == "call" and x[1].rsplit("::", 1)[-1] in ("rev", "skip", "step_by", "map", "filter") for x in walk(src)):
+                    els = elements(arrs[0])
+                    out.extend(els[:k_] if k_ is not None else els)
+                else:
+                    self.header_unknown = "bytes appended from %s" % fmt(e["args"][1])[:60]
+                    break
             elif sh == "extend_from_slice" and c.startswith("std::vec::Vec") and len(e["args"]) == 2:
                 els = elements(e["args"][1])
                 if els is None:
@@ -285,6 +299,9 @@ class Encoder:
             t, truth = ct
             if t[0] == "bin" and t[1] in ("Lt", "Le", "Gt", "Ge") and self.classify(t[2]) == "len" and t[3][0] == "const":
                 classes.append((t[1], t[3][1], truth))
+            elif t[0] == "bin" and t[1] in ("Lt", "Le", "Gt", "Ge") and self.classify(t[3]) == "len" and t[2][0] == "const":
+                # `K <= len` (range patterns): the mirrored comparison
+                classes.append(({"Lt": "Gt", "Le": "Ge", "Gt": "Lt", "Ge": "Le"}[t[1]], t[2][1], truth))
         return classes
 
     def emissions(self, p):
@@ -292,6 +309,7 @@ class Encoder:
         Array stores `buf[i] = v`, `buf[i] |= v`, Vec pushes and `v[len-1] |= x` are merged per slot."""
         slots = []
         started = False
+        self.emission_unknown = None
         for e in p.events:
             if e["k"] == "call" and e.get("callee") == self.search["callee"]:
                 started = True
@@ -303,6 +321,16 @@ class Encoder:
                 break  # a group flush: what follows re-initialises the group buffer
             if e["k"] == "call" and e["callee"] and e["callee"].startswith("std::vec::Vec") and e["callee"].endswith("::push"):
                 slots.append([("push", len(slots)), e["args"][1]])
+            elif e["k"] == "call" and e["callee"] and e["callee"].rsplit("::", 1)[-1] in ("copy_from_slice", "clone_from_slice", "fill", "swap", "rotate_left", "rotate_right"):
+                # bytes stored in bulk: the source array's elements, when it is visible
+                src = strip_refs(e["args"][1]) if len(e["args"]) > 1 else None
+                while src is not None and src[0] == "cast":
+                    src = strip_refs(src[1])
+                if e["callee"].endswith("copy_from_slice") and src is not None and src[0] == "agg" and src[1] == "array":
+                    for i_, el in enumerate(src[4]):
+                        slots.append([("bulk", len(slots)), el])
+                else:
+                    self.emission_unknown = "bytes stored with %s" % e["callee"].rsplit("::", 1)[-1]
             elif e["k"] == "write":
                 pl = e["place"]
                 if pl[0] == "index":
